@@ -15,6 +15,7 @@ import (
 	"flag"
 	"fmt"
 	"go/ast"
+	"go/constant"
 	"go/parser"
 	"go/printer"
 	"go/token"
@@ -28,6 +29,184 @@ var syncMethods = map[string]bool{
 	"Do": true, "Wait": true, "Done": true,
 	"LoadUint32": true, "AddUint32": true, "StoreUint32": true, "AddInt64": true, "LoadInt64": true,
 	"Stop": true, "Reset": true,
+}
+
+// ---- constant folding for the -consts listing (and for expectation files: -normconsts) ----
+// A defining expression is printed with every constant sub-expression folded to its value (integers; time.Duration
+// units in nanoseconds; same-file constants substituted), so that `1 << 11` and `2048`, `time.Minute / 2` and
+// `30 * time.Second`, `attribute.Bool(overflowKey, true)` and `attribute.Bool("otel.metric.overflow", true)` print alike.
+var knownConsts = map[string]string{
+	"time.Nanosecond": "1", "time.Microsecond": "1000", "time.Millisecond": "1000000", "time.Second": "1000000000",
+	"time.Minute": "60000000000", "time.Hour": "3600000000000",
+	"math.MaxInt64": "9223372036854775807", "math.MinInt64": "-9223372036854775808", "math.MaxInt32": "2147483647",
+	"math.MinInt32": "-2147483648", "math.MaxUint32": "4294967295", "math.MaxInt": "9223372036854775807",
+}
+
+type folder struct {
+	fset   *token.FileSet
+	consts map[string]ast.Expr // same-file constant name -> defining expression
+	busy   map[string]bool
+}
+
+func (f *folder) eval(e ast.Expr) (constant.Value, bool) {
+	switch x := e.(type) {
+	case *ast.BasicLit:
+		v := constant.MakeFromLiteral(x.Value, x.Kind, 0)
+		return v, v.Kind() != constant.Unknown
+	case *ast.ParenExpr:
+		return f.eval(x.X)
+	case *ast.Ident:
+		if x.Name == "true" {
+			return constant.MakeBool(true), true
+		}
+		if x.Name == "false" {
+			return constant.MakeBool(false), true
+		}
+		if d, ok := f.consts[x.Name]; ok && !f.busy[x.Name] {
+			f.busy[x.Name] = true
+			v, ok := f.eval(d)
+			delete(f.busy, x.Name)
+			return v, ok
+		}
+	case *ast.SelectorExpr:
+		if id, ok := x.X.(*ast.Ident); ok {
+			if s, ok := knownConsts[id.Name+"."+x.Sel.Name]; ok {
+				return constant.MakeFromLiteral(s, token.INT, 0), true
+			}
+		}
+	case *ast.UnaryExpr:
+		if v, ok := f.eval(x.X); ok && (x.Op == token.SUB || x.Op == token.ADD || x.Op == token.NOT || x.Op == token.XOR) {
+			defer func() { recover() }()
+			return constant.UnaryOp(x.Op, v, 0), true
+		}
+	case *ast.BinaryExpr:
+		a, ok1 := f.eval(x.X)
+		b, ok2 := f.eval(x.Y)
+		if ok1 && ok2 {
+			ok := true
+			var r constant.Value
+			func() {
+				defer func() {
+					if recover() != nil {
+						ok = false
+					}
+				}()
+				switch x.Op {
+				case token.SHL, token.SHR:
+					n, exact := constant.Uint64Val(b)
+					if !exact || n > 4096 {
+						ok = false
+						return
+					}
+					r = constant.Shift(a, x.Op, uint(n))
+				case token.QUO:
+					if a.Kind() == constant.Int && b.Kind() == constant.Int {
+						r = constant.BinaryOp(a, token.QUO_ASSIGN, b) // integer division
+					} else {
+						r = constant.BinaryOp(a, x.Op, b)
+					}
+				case token.ADD, token.SUB, token.MUL, token.REM, token.AND, token.OR, token.XOR, token.AND_NOT:
+					r = constant.BinaryOp(a, x.Op, b)
+				default:
+					ok = false
+				}
+			}()
+			if ok && r != nil && r.Kind() != constant.Unknown {
+				return r, true
+			}
+		}
+	case *ast.CallExpr:
+		// conversion to a named numeric type: time.Duration(5), int64(3)
+		if len(x.Args) == 1 {
+			switch fn := x.Fun.(type) {
+			case *ast.SelectorExpr:
+				if id, ok := fn.X.(*ast.Ident); ok && id.Name == "time" && fn.Sel.Name == "Duration" {
+					return f.eval(x.Args[0])
+				}
+			case *ast.Ident:
+				switch fn.Name {
+				case "int", "int32", "int64", "uint", "uint32", "uint64":
+					return f.eval(x.Args[0])
+				}
+			}
+		}
+	}
+	return nil, false
+}
+
+// norm prints e with every maximal constant sub-expression replaced by its value
+func (f *folder) norm(e ast.Expr) string {
+	if v, ok := f.eval(e); ok {
+		return v.ExactString()
+	}
+	var sb strings.Builder
+	switch x := e.(type) {
+	case *ast.CallExpr:
+		sb.WriteString(f.norm(x.Fun) + "(")
+		for i, a := range x.Args {
+			if i > 0 {
+				sb.WriteString(", ")
+			}
+			sb.WriteString(f.norm(a))
+		}
+		sb.WriteString(")")
+		return sb.String()
+	case *ast.BinaryExpr:
+		return f.norm(x.X) + " " + x.Op.String() + " " + f.norm(x.Y)
+	case *ast.ParenExpr:
+		return "(" + f.norm(x.X) + ")"
+	case *ast.UnaryExpr:
+		return x.Op.String() + f.norm(x.X)
+	case *ast.CompositeLit:
+		var ty string
+		if x.Type != nil {
+			ty = f.norm(x.Type)
+		}
+		sb.WriteString(ty + "{")
+		for i, a := range x.Elts {
+			if i > 0 {
+				sb.WriteString(", ")
+			}
+			sb.WriteString(f.norm(a))
+		}
+		sb.WriteString("}")
+		return sb.String()
+	case *ast.KeyValueExpr:
+		return f.norm(x.Key) + ": " + f.norm(x.Value)
+	}
+	printer.Fprint(&sb, f.fset, e)
+	return strings.Join(strings.Fields(sb.String()), " ")
+}
+
+// normExpectation rewrites the `const X = expr` / `var X = expr` lines of an expectation file in folded form
+func normExpectation(path string) {
+	b, err := os.ReadFile(path)
+	if err != nil {
+		fmt.Fprintln(os.Stderr, err)
+		os.Exit(2)
+	}
+	f := &folder{fset: token.NewFileSet(), consts: map[string]ast.Expr{}, busy: map[string]bool{}}
+	type ln struct{ kw, name, rhs string }
+	var lines []ln
+	for _, l := range strings.Split(strings.TrimSpace(string(b)), "\n") {
+		parts := strings.SplitN(l, " = ", 2)
+		hd := strings.Fields(parts[0])
+		if len(parts) != 2 || len(hd) != 2 || (hd[0] != "const" && hd[0] != "var") {
+			fmt.Println(l)
+			continue
+		}
+		lines = append(lines, ln{hd[0], hd[1], parts[1]})
+		if e, err := parser.ParseExpr(parts[1]); err == nil && hd[0] == "const" {
+			f.consts[hd[1]] = e
+		}
+	}
+	for _, l := range lines {
+		if e, err := parser.ParseExpr(l.rhs); err == nil {
+			fmt.Printf("%s %s = %s\n", l.kw, l.name, f.norm(e))
+		} else {
+			fmt.Printf("%s %s = %s\n", l.kw, l.name, l.rhs)
+		}
+	}
 }
 
 func expr(fset *token.FileSet, e ast.Node) string {
@@ -100,6 +279,9 @@ func (s *scanner) walkExpr(e ast.Node) {
 				switch f := x.Fun.(type) {
 				case *ast.SelectorExpr:
 					callee = f.Sel.Name
+					if inner, ok := f.X.(*ast.SelectorExpr); ok && s.inline[inner.Sel.Name+"."+callee] != nil {
+						callee = inner.Sel.Name + "." + callee
+					}
 				case *ast.Ident:
 					callee = f.Name
 				}
@@ -302,7 +484,13 @@ func main() {
 	calls := flag.String("calls", "", "comma separated call-out method names")
 	consts := flag.String("consts", "", "comma separated package-level const/var names whose defining expression is printed")
 	inline := flag.Bool("inline", false, "inline the listings of same-file helper functions at their call sites")
+	fold := flag.Bool("fold", false, "with -consts: print defining expressions with constant sub-expressions folded to their values")
+	normc := flag.String("normconsts", "", "rewrite the const/var lines of this expectation file in folded form and exit")
 	flag.Parse()
+	if *normc != "" {
+		normExpectation(*normc)
+		return
+	}
 	fset := token.NewFileSet()
 	f, err := parser.ParseFile(fset, *file, nil, 0)
 	if err != nil {
@@ -321,17 +509,25 @@ func main() {
 			cs[n] = true
 		}
 	}
-	// functions listed under -funcs are printed on their own and never inlined
-	wantSimple := map[string]bool{}
-	for n := range want {
-		wantSimple[n[strings.LastIndex(n, ".")+1:]] = true
-	}
 	found := map[string]bool{}
 	// package-level constants / variables the models take their numbers from: printed as written in the source
 	wantC := map[string]bool{}
 	for _, n := range strings.Split(*consts, ",") {
 		if n != "" {
 			wantC[n] = true
+		}
+	}
+	fl := &folder{fset: fset, consts: map[string]ast.Expr{}, busy: map[string]bool{}}
+	for _, d := range f.Decls {
+		if gd, ok := d.(*ast.GenDecl); ok && gd.Tok == token.CONST {
+			for _, sp := range gd.Specs {
+				vs := sp.(*ast.ValueSpec)
+				for i, id := range vs.Names {
+					if i < len(vs.Values) {
+						fl.consts[id.Name] = vs.Values[i]
+					}
+				}
+			}
 		}
 	}
 	for _, d := range f.Decls {
@@ -350,6 +546,9 @@ func main() {
 					var sb strings.Builder
 					printer.Fprint(&sb, fset, vs.Values[i])
 					val = strings.Join(strings.Fields(sb.String()), " ")
+					if *fold {
+						val = fl.norm(vs.Values[i])
+					}
 				}
 				fmt.Printf("%s %s = %s\n", gd.Tok, id.Name, val)
 				delete(wantC, id.Name)
@@ -389,11 +588,24 @@ func main() {
 			sc.inlining = map[string]bool{}
 			dup := map[string]bool{}
 			for _, d2 := range f.Decls {
-				if fd2, ok := d2.(*ast.FuncDecl); ok && fd2.Body != nil && fd2 != fd && !wantSimple[fd2.Name.Name] {
+				if fd2, ok := d2.(*ast.FuncDecl); ok && fd2.Body != nil && fd2 != fd {
 					if sc.inline[fd2.Name.Name] != nil {
 						dup[fd2.Name.Name] = true
 					}
 					sc.inline[fd2.Name.Name] = fd2
+					// also under "Recv.Method": a call through an embedded field `x.recv.Method()` picks its method
+					if fd2.Recv != nil && len(fd2.Recv.List) == 1 {
+						t := fd2.Recv.List[0].Type
+						if st, ok := t.(*ast.StarExpr); ok {
+							t = st.X
+						}
+						if ix, ok := t.(*ast.IndexExpr); ok {
+							t = ix.X
+						}
+						if id, ok := t.(*ast.Ident); ok {
+							sc.inline[id.Name+"."+fd2.Name.Name] = fd2
+						}
+					}
 				}
 			}
 			for n := range dup {
